@@ -368,7 +368,7 @@ class LibCalls:
         mod, k = self.table[name]
         return getattr(mod, k)  # looked up at call time (patches are honoured)
 
-    def terminates(self, name, args, kw, timeout=25.0):
+    def terminates(self, name, args, kw, timeout=12.0):
         """Does the call come back at all?  Made by a forked copy of this process which the parent kills after `timeout` seconds of wall
         clock - the only way to stop a call that is stuck inside C code (a backtracking pattern match) where no Python-level alarm is
         delivered.  Used for calls whose arguments carry strings built to make pattern matchers explode."""
@@ -406,23 +406,23 @@ class LibCalls:
 
     def _preflight(self, name, args, kw):
         """True if the call may proceed in this process."""
-        if getattr(self.run, "tier", "quick") != "thorough" and not os.environ.get("VERIF_PREFLIGHT"):
-            return True                  # thorough tier only (a fork per distinct call is too dear for the quick tier)
+        if os.environ.get("VERIF_PREFLIGHT") == "0":
+            return True
         hit = _carries_redos((args, kw))
         if not hit:
             return True
-        seen = self.__dict__.setdefault("_preflighted", set())
+        seen = self.__dict__.setdefault("_preflighted", {})
         try:
             key = (name, hit, hash(repr((args, kw))[:20000]))
         except Exception:  # noqa: BLE001
             key = (name, hit, self.run.libcalls)
         if key in seen:
-            return True                  # this function has already come back from exactly these arguments in this run
-        seen.add(key)
+            return seen[key]             # this function has already been tried on exactly these arguments in this run
         self.run.probe("preflight_for_pathological_string")
-        if self.terminates(name, args, kw):
+        seen[key] = self.terminates(name, args, kw)
+        if seen[key]:
             return True
-        self.run.violate(("C13",), "did-not-terminate", "%s did not return within 25 s of wall clock on an argument carrying a string built to make "
+        self.run.violate(("C13",), "did-not-terminate", "%s did not return within 12 s of wall clock on an argument carrying a string built to make "
                          "backtracking pattern matchers explode" % name, "did-not-terminate:" + name)
         return False
 
@@ -464,7 +464,23 @@ class LibCalls:
                     _os._exit(0)
         _os.close(wr)
         data = b""
+        import select as _select
+        import time as _time
+        t0 = _time.monotonic()
         while True:
+            left = 40.0 - (_time.monotonic() - t0)
+            if left <= 0:
+                # the copy is stuck (inside C code no alarm reaches it): end it; the caller gets "unavailable"
+                try:
+                    _os.kill(pid, 9)
+                except OSError:
+                    pass
+                data = b"E"
+                self.run.probe("fresh_state_copy_did_not_return")
+                break
+            r, _, _ = _select.select([rd], [], [], min(left, 1.0))
+            if not r:
+                continue
             chunk = _os.read(rd, 4096)
             if not chunk:
                 break
